@@ -245,7 +245,10 @@ inductive Reach (set : Bool) (now spur : Nat) : St → Prop
 
 end Signal
 
-/-! ## Monitor (Monitor.cpp): flag + mutex + condition variable, auto-reset, `set` wakes one waiter -/
+/-! ## Monitor (Monitor.cpp): flag + mutex + condition variable, auto-reset, `set` wakes one waiter.
+    The contract does not fix whether `set()` signals before or after it releases the mutex: the system is parametric in
+    that order (`sigFirst`, constant along every run; the driver takes it from the current source, Generated/SyncMonitorOrder)
+    and every theorem is proved for both. -/
 namespace Monitor
 
 inductive Op | lock | tryLock | unlock | wait | twait (ms : Nat) | set
@@ -281,12 +284,17 @@ structure St where
   sets : Nat
   succ : Nat
   flog : List FalseRet
+  /-- the order of `set()`: true = lock; store; pthread_cond_signal; unlock — false = lock; store; unlock; pthread_cond_signal -/
+  sigFirst : Bool
 
-def init (now spur : Nat) : St :=
-  ⟨none, false, [], fun _ => .idle, fun _ => none, now, spur, 0, 0, []⟩
+def init (now spur : Nat) (sigFirst : Bool := false) : St :=
+  ⟨none, false, [], fun _ => .idle, fun _ => none, now, spur, 0, 0, [], sigFirst⟩
 
 def goto (s : St) (t : Tid) (p : Pc) : St := { s with pc := upd s.pc t p }
 def done (s : St) (t : Tid) (v : Val) : St := { s with pc := upd s.pc t .idle, ret := upd s.ret t (some v) }
+
+/-- where `set()` goes after its pthread_cond_signal: to the unlock (sigFirst) or back to the caller -/
+def afterSignal (s : St) (t : Tid) : St := if s.sigFirst then goto s t .setUnlock else done s t .unit
 
 def markSaw (p : Pc) : Pc := match p with | .wBlocked dl _ => .wBlocked dl true | p => p
 def wake (p : Pc) : Pc := match p with | .wBlocked dl _ => .wRelock dl false | p => p
@@ -335,19 +343,23 @@ def step (s : St) (t : Tid) : Act Op → Option St
         else if s.flag then some (done { s with m := some t, flag := false, succ := s.succ + 1 } t (.bool true))
         else some (goto { s with m := some t } t (.wEnter dl))
       else none
-    -- set(): lock; signaled = true; unlock; pthread_cond_signal
+    -- set(): lock; signaled = true; then unlock; pthread_cond_signal — or (sigFirst) pthread_cond_signal; unlock
     | .setLock =>
       if alt = 0 ∧ s.m = none then
-        some (goto { s with m := some t, flag := true, sets := s.sets + 1, pc := fun u => markSaw (s.pc u) } t .setUnlock)
+        some (goto { s with m := some t, flag := true, sets := s.sets + 1, pc := fun u => markSaw (s.pc u) } t
+          (if s.sigFirst then .setSignal else .setUnlock))
       else none
-    | .setUnlock => if alt = 0 ∧ s.m = some t then some (goto { s with m := none } t .setSignal) else none
+    | .setUnlock =>
+      if alt = 0 ∧ s.m = some t then
+        (if s.sigFirst then some (done { s with m := none } t .unit) else some (goto { s with m := none } t .setSignal))
+      else none
     | .setSignal =>         -- wakes the chosen waiter if there is any
       match s.waiters[alt]? with
-      | some w => some (done { s with waiters := s.waiters.filter (· ≠ w), pc := upd s.pc w (wake (s.pc w)) } t .unit)
-      | none => if alt = 0 then some (done s t .unit) else none
+      | some w => some (afterSignal { s with waiters := s.waiters.filter (· ≠ w), pc := upd s.pc w (wake (s.pc w)) } t)
+      | none => if alt = 0 then some (afterSignal s t) else none
 
 inductive Reach (now spur : Nat) : St → Prop
-  | init : Reach now spur (init now spur)
+  | init (sigFirst : Bool) : Reach now spur (init now spur sigFirst)
   | step {s s' t a} : Reach now spur s → step s t a = some s' → Reach now spur s'
 
 end Monitor
